@@ -41,20 +41,31 @@ int main(int argc,char** argv){
       // extents / periods (state grid evaluation must not read) vary from table to table
       uint64_t h=0x9e3779b97f4a7c15ull; for(auto& k: kn) for(double v: k){ uint64_t b; memcpy(&b,&v,8); h=(h^b)*0x100000001b3ull; }
       tab.reset(new ST()); build_table(*tab,ord,kn,co,pad,(int)((h>>33)%7)); }
-    else if(tk[0]=="G"){
+    else if(tk[0]=="G" || tk[0]=="H"){
       if(gn++ < skip) continue;
       const std::string id=tk[1];
+      const bool huge= tk[0]=="H";
       fprintf(stderr,"@%s\n",id.c_str()); fflush(stderr);
       std::vector<std::vector<double>> grid;
       size_t p=3;   // tk[2] = exact flag (model side only)
+      const ST& t=*tab;
       for(uint32_t d=0; d<nd; d++){
-        size_t n=atoi(tk[p++].c_str()); std::vector<double> g;
-        for(size_t i=0;i<n;i++) g.push_back(dfrom(parse_hex(tk[p++])));
+        std::vector<double> g;
+        if(!huge){
+          size_t n=atoi(tk[p++].c_str());
+          for(size_t i=0;i<n;i++) g.push_back(dfrom(parse_hex(tk[p++])));
+        }else{
+          // H <id> 0 <ntotal> <k> <position>:<hex64> * k per dimension: a grid of ntotal abscissae of which only the k listed ones lie
+          // where the table can be non-zero; every other abscissa lies beyond the last knot (all basis functions vanish there)
+          size_t n=strtoull(tk[p++].c_str(),NULL,10), k=atoi(tk[p++].c_str());
+          double hi=t.knots[d][t.nknots[d]-1]; double step=std::max(1.0,std::fabs(hi))*0.001;
+          g.resize(n); for(size_t i=0;i<n;i++) g[i]=hi+std::max(1.0,std::fabs(hi))+step*(double)(i%1000);
+          for(size_t i=0;i<k;i++){ std::string e=tk[p++]; size_t c=e.find(':'); g[strtoull(e.substr(0,c).c_str(),NULL,10)]=dfrom(parse_hex(e.substr(c+1))); }
+        }
         grid.push_back(g);
       }
-      const ST& t=*tab;
       // --- basis matrices, bsplinebasis called directly
-      {
+      if(!huge){
         cholmod_common cc; cholmod_l_start(&cc);
         for(uint32_t d=0; d<nd; d++){
           cholmod_sparse* b=bsplinebasis(t.knots[d],t.nknots[d],grid[d].data(),grid[d].size(),t.order[d],&cc);
@@ -99,7 +110,7 @@ int main(int argc,char** argv){
         puts(os.str().c_str());
       }
       // --- pointwise evaluation at every grid point, row-major in the grid indices
-      {
+      if(!huge){
         std::ostringstream os; os<<"P "<<id;
         std::vector<size_t> g(nd,0); size_t total=1; for(uint32_t d=0; d<nd; d++) total*=grid[d].size();
         std::vector<double> x(nd); std::vector<int> c(nd+2);
